@@ -69,6 +69,7 @@ def units(ctx):
             yield ("quads", i)
     yield from hist.hist_units()
     yield ("extremes",)
+    yield ("long",)
 
 
 def _mk(notes):
@@ -86,6 +87,16 @@ def gen_cases(unit, ctx):
     L = ctx["L"]
     p, (c0, c1) = ctx["p"], ctx["ch"]
     kind = unit[0]
+    if kind == "long":
+        for n in (16, 48, 120):
+            for step in (5, 7):
+                ns = lib.long_desc(n, p - 2, (c0, c1, 9), step, lens=(3, 9, 5, 14))
+                end = max(x[0] + x[1] for x in ns)
+                for caps in ([7], [50, 300], [96] * 8, [33] * 20, [end], [end - 1, 1], [1000], [5] * 40):
+                    for build in ("abs", "rel"):
+                        yield {"notes": [list(x) for x in ns], "events": [["ts", 0, 3, 4], ["ks", step * n // 2, "G"]],
+                               "dur": end + 10, "caps": caps, "build": build}
+        return
     if kind == "hist":
         for h in hist.hist_of_unit(unit):
             for caps in ([5], [30, 7], [84, 144], [3, 3, 3], [1000]):
